@@ -141,6 +141,9 @@ static string WorldKey(const vfs::Disk& d, bool skip_dirs = false) {
     k += "LOG v" + to_string(bl.version) + ":";
     for (auto& kv : bl.entries)
       k += kv.first + "@" + TickToken(kv.second.mtime, rank) + "#" + kv.second.hash + ";";
+    // the number of lines is observable through the recompaction threshold (kMinCompactionEntryCount /
+    // kCompactionRatio in build_log.cc)
+    if (bl.total_lines > 100 && bl.total_lines > 3 * (int)bl.entries.size()) k += "RECOMPACTION-PENDING;";
     for (auto& l : bl.bad_lines) k += "BAD(" + l + ")";
     if (!bl.torn_tail.empty()) k += "TORN(" + bl.torn_tail + ")";
     k += '\x02';
@@ -153,6 +156,7 @@ static string WorldKey(const vfs::Disk& d, bool skip_dirs = false) {
       for (auto& p : kv.second.deps) k += p + ",";
       k += ">;";
     }
+    if (dl.records > 1000 && dl.records > 3 * (int)dl.deps.size()) k += "RECOMPACTION-PENDING;";
     if (!dl.clean) k += "DAMAGED(" + f->data.substr(dl.good_size) + ")";
     k += '\x02';
   }
@@ -167,7 +171,27 @@ struct Violation {
   string prop, clause, detail;
   J facts = J::Obj();
   vector<Step> hist;
+  int known = -1;   // index into g_known (the listed known findings) or -1
 };
+
+/// The listed known findings (known_findings.json), used here only so that executions matching
+/// one of them can never crowd an unlisted violation out of the (capped) report; the verdict
+/// known/unknown itself is given by the driver (lib/nxcheck.py) with the same predicate.
+struct KnownFinding { string prop; set<string> clauses; J facts = J::Obj(); };
+static vector<KnownFinding> g_known;
+
+static int MatchKnown(const Violation& v) {
+  for (size_t i = 0; i < g_known.size(); ++i) {
+    const KnownFinding& k = g_known[i];
+    if (k.prop != v.prop) continue;
+    if (!k.clauses.empty() && !k.clauses.count(v.clause)) continue;
+    bool ok = true;
+    for (auto& kv : k.facts.o)
+      if (js::Dump(v.facts[kv.first]) != js::Dump(kv.second)) { ok = false; break; }
+    if (ok) return (int)i;
+  }
+  return -1;
+}
 
 struct Stats {
   uint64_t states = 0, transitions = 0, invocations = 0, schedules = 0, commands = 0;
@@ -295,7 +319,11 @@ struct Explorer {
     // one report per (prop, clause, first fact) is enough; keep the first (shortest history)
     for (auto& o : violations)
       if (o.prop == v.prop && o.clause == v.clause && js::Dump(o.facts) == js::Dump(v.facts)) return;
-    if ((int)violations.size() < max_violations) violations.push_back(v);
+    v.known = MatchKnown(v);
+    int same = 0;
+    for (auto& o : violations) if ((o.known >= 0) == (v.known >= 0) && (v.known < 0 || o.known == v.known)) same++;
+    // separate budgets: a few examples per listed finding, and max_violations for everything else
+    if (same < (v.known >= 0 ? 3 : max_violations)) violations.push_back(v);
   }
 
   // ---- non-ninja operations ---------------------------------------------------------------
@@ -362,6 +390,37 @@ struct Explorer {
         }
         if (!removed) return false;
         data = out;
+        it->second.mtime = d->Tick();
+        return true;
+      }
+      case Op::kDupLogRecord: {
+        // a long history: the record of `path` has been appended many times over (content = count),
+        // which pushes the log over the recompaction threshold
+        auto it = d->files.find(kLog);
+        if (it == d->files.end()) return false;
+        string& data = it->second.data;
+        if (data.empty() || data.back() != '\n') return false;
+        lp::BuildLogModel m = lp::ParseBuildLog(data);
+        if (m.total_lines > 300) return false;   // once is enough
+        string rec;
+        size_t pos = 0;
+        while (pos < data.size()) {
+          size_t nl = data.find('\n', pos);
+          if (nl == string::npos) break;
+          string line = data.substr(pos, nl - pos + 1);
+          pos = nl + 1;
+          size_t t = 0;
+          int tabs = 0;
+          size_t f3 = string::npos, f4 = string::npos;
+          for (size_t i = 0; i < line.size(); ++i)
+            if (line[i] == '\t') { ++tabs; if (tabs == 3) f3 = i + 1; if (tabs == 4) f4 = i; }
+          (void)t;
+          if (tabs == 4 && f3 != string::npos && line.substr(f3, f4 - f3) == op.path) rec = line;
+        }
+        if (rec.empty()) return false;
+        int n = atoi(op.content.c_str());
+        if (n <= 0) n = 400;
+        for (int i = 0; i < n; ++i) data += rec;
         it->second.mtime = d->Tick();
         return true;
       }
@@ -445,6 +504,7 @@ struct Explorer {
         x.facts.set("ran_in_this_invocation", Started(r, s.id));
         x.facts.set("deps", s.deps);
         x.facts.set("depfile", !s.depfile.empty());
+        x.facts.set("has_discovered_deps", !s.deps.empty() || !s.depfile.empty());
         x.facts.set("restat", s.restat);
         x.facts.set("generator", s.generator);
         x.facts.set("actual", got == kMissing ? "missing" : got.compare(0, 7, "GARBAGE") == 0 ? "garbage-from-failed-command"
@@ -734,6 +794,17 @@ struct Explorer {
           bool downstream = false;
           for (int u : up) if (failed_ids.count(v->stmts[u].id)) downstream = true;
           if (downstream) continue;
+          {
+            // needed only through dyndep information that this (failing) build never got to load
+            vector<int> fin_ev(r.cmds.size(), -1);
+            for (size_t e = 0; e < r.events.size(); ++e)
+              if (r.events[e].kind == Event::kFinish) fin_ev[r.events[e].cmd] = (int)e;
+            set<int> known;
+            int cyc = r.cmds.empty() ? 0 : r.cmds.back().cycle;
+            KnownWanted(*v, TargetsOf(op, *v),
+                        [&](const Stmt& t) { return DyndepLoadedAt(*v, t, r, cyc, (int)r.events.size(), fin_ev); }, &known);
+            if (!known.count(p->second)) continue;
+          }
           Violation x;
           x.prop = "C05"; x.clause = "independent-work-not-started";
           x.detail = "'" + id + "' does not depend on a failed command and the failure budget was not exhausted, "
@@ -824,7 +895,7 @@ struct Explorer {
       return a->mtime != b->mtime || a->data != b->data;
     };
     size_t n = v->stmts.size();
-    vector<int> affected(n, 0), runs(n, -1);
+    vector<int> affected(n, 0), runs(n, -1), cause(n, -1);
     vector<string> why(n);
     for (size_t i = 0; i < n; ++i) {
       const Stmt& s = v->stmts[i];
@@ -866,7 +937,7 @@ struct Explorer {
               const vfs::File* old = cur.Get(x);
               rewrote = !old || old->data != ex.Content(x);
             }
-            if (rewrote) { res = true; why[i] = "input " + x + " is rewritten by " + ps.id; }
+            if (rewrote) { res = true; why[i] = "input " + x + " is rewritten by " + ps.id; cause[i] = px->second; }
           }
       }
       runs[i] = res;
@@ -883,6 +954,9 @@ struct Explorer {
     for (auto& id : expected) if (!actual.count(id)) {
       int si = v->producer.at(id);
       const Stmt& s = v->stmts[si];
+      // root causes only: a statement that should run only because a producer rewrites its input is a
+      // consequence when that producer itself was (wrongly) not run
+      if (!affected[si] && cause[si] >= 0 && !actual.count(v->stmts[cause[si]].id)) continue;
       Violation x;
       x.prop = "C03"; x.clause = "needed-command-not-run";
       x.detail = "'" + id + "' should run (" + why[si] + ") but was not started; started=" + js::Dump(StartedList(r));
@@ -1137,6 +1211,91 @@ struct Explorer {
       }
     }
     return v;
+  }
+
+  /// C08 at process level: what ninja (any invocation) does to an existing build log.
+  ///  * a log of an unsupported version is discarded with a warning, never an error;
+  ///  * `-t restat [outputs]` changes only recorded mtimes (to the files' current ones, 0 when missing);
+  ///  * a build, `-t recompact` and the automatic recompaction keep the latest record of every output
+  ///    that is still in the manifest or on disk.
+  void CheckLogHandling(const Op& op, const RunResult& r, const vfs::Disk& before, const vfs::Disk& after,
+                        vector<Violation>* out) {
+    if (r.hang || r.crashed || r.horizon) return;
+    const vfs::File* fb = before.Get(kLog);
+    if (!fb) return;
+    lp::BuildLogModel b0 = lp::ParseBuildLog(fb->data);
+    lp::BuildLogModel b1;
+    const vfs::File* fa = after.Get(kLog);
+    if (fa) b1 = lp::ParseBuildLog(fa->data);
+    bool restat_tool = op.tool && op.tool_kind == "restat";
+    bool recompact_tool = op.tool && op.tool_kind == "recompact";
+    bool other_tool = op.tool && !restat_tool && !recompact_tool;
+    bool opens_log = !other_tool || op.tool_kind == "cleandead" || op.tool_kind == "deps" || op.tool_kind == "query" ||
+                     op.tool_kind == "missingdeps";
+    if (!opens_log) return;
+    bool has_header = fb->data.compare(0, 13, "# ninja log v") == 0 && fb->data.find('\n') != string::npos;
+    if (has_header && (b0.version < 7 || b0.version > 7)) {
+      // kOldestSupportedVersion = kCurrentVersion = 7 at this commit (build_log.cc); checked by the unit tests
+      if (r.out.find("build log version") == string::npos) {
+        Violation x; x.prop = "C08"; x.clause = "unsupported-version-without-warning";
+        x.detail = "'" + op.label + "' met a build log of version " + to_string(b0.version) +
+                   " and discarded or ignored it without the warning; log " + string(fa ? "still there" : "deleted");
+        x.facts.set("tool", op.tool ? op.tool_kind : string("build"));
+        out->push_back(x);
+      }
+      if (r.out.find("loading build log") != string::npos) {
+        Violation x; x.prop = "C08"; x.clause = "unsupported-version-is-an-error";
+        x.detail = "'" + op.label + "' fails on a build log of an unsupported version";
+        out->push_back(x);
+      }
+      return;
+    }
+    if (!has_header) return;   // damaged logs are engine C's subject (every tear offset)
+    if (op.dry_run || op.tool_dry) return;
+    const Variant* v = VariantOf(sc, after);
+    set<string> started;
+    for (auto& c : r.cmds) for (auto& o : c.spec.outs) started.insert(o);
+    for (auto& kv : b0.entries) {
+      const string& path = kv.first;
+      bool in_manifest = v && v->producer.count(path) && !v->stmts[v->producer.at(path)].phony;
+      bool on_disk = after.Get(path) != nullptr;
+      auto it = b1.entries.find(path);
+      if (restat_tool) {
+        bool selected = op.tool_args.empty() || find(op.tool_args.begin(), op.tool_args.end(), path) != op.tool_args.end();
+        const vfs::File* f = after.Get(path);
+        int64_t want_mtime = selected ? (f ? vfs::TickToNs(f->mtime) : 0) : kv.second.mtime;
+        if (it == b1.entries.end() || it->second.hash != kv.second.hash || it->second.start != kv.second.start ||
+            it->second.end != kv.second.end || it->second.mtime != want_mtime) {
+          Violation x; x.prop = "C08"; x.clause = "restat-changed-more-than-mtimes";
+          x.detail = "'" + op.label + "': the record of '" + path + "' " +
+                     (it == b1.entries.end() ? string("was dropped") : "became mtime=" + to_string(it->second.mtime) + " hash=" + it->second.hash) +
+                     " (expected mtime=" + to_string(want_mtime) + " hash=" + kv.second.hash + ")";
+          x.facts.set("output", path);
+          x.facts.set("dropped", it == b1.entries.end());
+          x.facts.set("in_manifest", in_manifest);
+          x.facts.set("on_disk", on_disk);
+          out->push_back(x);
+          return;
+        }
+        continue;
+      }
+      if (!in_manifest && !on_disk) continue;       // dead: may be dropped by a recompaction
+      if (started.count(path)) continue;             // re-recorded (or failed) in this invocation
+      if (op.tool && op.tool_kind.compare(0, 5, "clean") == 0 && !on_disk) continue;
+      // restat statements refresh the recorded mtime of their outputs when they are found unchanged; only
+      // the presence and the command hash are compared for the others
+      if (it == b1.entries.end() || it->second.hash != kv.second.hash) {
+        Violation x; x.prop = "C08"; x.clause = "live-record-lost";
+        x.detail = "'" + op.label + "': the record of '" + path + "' (" + (in_manifest ? "in the manifest" : "on disk") + ") " +
+                   (it == b1.entries.end() ? "was dropped" : "changed its command hash") + " although its command did not run";
+        x.facts.set("output", path);
+        x.facts.set("in_manifest", in_manifest);
+        x.facts.set("on_disk", on_disk);
+        x.facts.set("tool", op.tool ? op.tool_kind : string("build"));
+        out->push_back(x);
+        return;
+      }
+    }
   }
 
   void CheckReadOnly(const Op& op, const RunResult& r, const vfs::Disk& before, const vfs::Disk& after,
@@ -1989,6 +2148,44 @@ struct Explorer {
     CheckIdle(op, r, out);
   }
 
+  /// Statements ninja can know it needs: reachable from the targets through declared inputs (and the
+  /// dyndep file binding), and through dyndep-supplied inputs only of statements whose dyndep
+  /// information is loaded at the moment in question (`loaded`).
+  void KnownWanted(const Variant& v, const vector<string>& roots, const function<bool(const Stmt&)>& loaded,
+                   set<int>* out) {
+    vector<string> todo(roots.begin(), roots.end());
+    set<string> seen;
+    while (!todo.empty()) {
+      string nname = todo.back();
+      todo.pop_back();
+      if (!seen.insert(nname).second) continue;
+      auto p = v.producer.find(nname);
+      if (p == v.producer.end()) continue;
+      const Stmt& s = v.stmts[p->second];
+      if (!out->insert(p->second).second) continue;
+      for (auto& x : s.AllDeclaredInputs()) todo.push_back(x);
+      if (!s.dyndep.empty()) {
+        todo.push_back(s.dyndep);
+        if (loaded(s)) for (auto& x : s.spec.reads) todo.push_back(x);
+      }
+    }
+  }
+
+  /// Is the dyndep information of `s` loaded at event index `at` of run `r` (cycle `cycle`)?  Loaded at
+  /// scan time when the file's producer does not run in this invocation, otherwise once it finished.
+  bool DyndepLoadedAt(const Variant& v, const Stmt& s, const RunResult& r, int cycle, int at, const vector<int>& fin_ev) {
+    auto pd = v.producer.find(s.dyndep);
+    if (pd == v.producer.end()) return true;
+    const string& did = v.stmts[pd->second].id;
+    bool ran = false;
+    for (size_t c = 0; c < r.cmds.size(); ++c) {
+      if (r.cmds[c].spec.id() != did || r.cmds[c].cycle != cycle) continue;
+      ran = true;
+      if (fin_ev[c] >= 0 && fin_ev[c] < at && r.cmds[c].status == 0) return true;
+    }
+    return !ran;
+  }
+
   /// "No slot idles": at every wait, no statement that is started later was already startable.
   void CheckIdle(const Op& op, const RunResult& r, vector<Violation>* out) {
     if (r.crashed || r.hang || r.horizon) return;
@@ -2020,6 +2217,14 @@ struct Explorer {
         auto p = v->producer.find(rc.spec.id());
         if (p == v->producer.end()) continue;
         const Stmt& s = v->stmts[p->second];
+        // ninja must be able to know that it needs the statement: one reachable only through
+        // dyndep-supplied inputs is unknown until that dyndep file has been loaded
+        {
+          set<int> known;
+          KnownWanted(*v, TargetsOf(op, *v),
+                      [&](const Stmt& t) { return DyndepLoadedAt(*v, t, r, rc.cycle, (int)i, fin_ev); }, &known);
+          if (!known.count(p->second)) continue;
+        }
         // all producers (transitively) that run in this invocation finished before this wait,
         // and nothing that is to run later is upstream of it
         set<int> up;
@@ -2125,8 +2330,11 @@ struct Explorer {
       bool edited_during = !op.cfg.edits_during.empty();
       bool success = r.exit_code == 0 && !r.hang && !r.crashed && !r.horizon;
       bool content_bad = false;
+      if (props.count("C08")) CheckLogHandling(op, r, w.disk, d, &vs);
       if (op.tool && op.tool_kind.compare(0, 5, "clean") == 0) {
         if (Want("C18")) CheckClean(op, r, w.disk, d, &vs);
+      } else if (op.tool && (op.tool_kind == "restat" || op.tool_kind == "recompact")) {
+        // log maintenance tools: judged by CheckLogHandling only
       } else if (op.tool || op.dry_run) {
         if (Want("C19")) CheckReadOnly(op, r, w.disk, d, &vs);
       }
@@ -2469,7 +2677,9 @@ struct Explorer {
       if (i + 1 == hist.size()) {
         vector<Violation> vs;
         bool success = r.exit_code == 0 && !r.hang && !r.crashed;
+        if (props.count("C08")) CheckLogHandling(op, r, before, w.disk, &vs);
         if (op.tool && op.tool_kind.compare(0, 5, "clean") == 0) CheckClean(op, r, before, w.disk, &vs);
+        else if (op.tool && (op.tool_kind == "restat" || op.tool_kind == "recompact")) {}
         else if (op.tool || op.dry_run) CheckReadOnly(op, r, before, w.disk, &vs);
         if (!op.tool && !op.dry_run) {
           if (success && op.cfg.edits_during.empty()) {
@@ -2569,6 +2779,25 @@ int main(int argc, char** argv) {
   J viol = J::Arr();
   J samples = J::Arr();
   uint64_t scenarios = 0, incomplete = 0, trivial = 0;
+  map<int, int> known_kept;
+  int unknown_kept = 0;
+  if (a.Has("known")) {
+    ifstream kf(a.Get("known"));
+    stringstream ks;
+    ks << kf.rdbuf();
+    J kj;
+    if (!js::Parse(ks.str(), &kj)) { fprintf(stderr, "bad known-findings file\n"); return 2; }
+    for (auto& f : kj["findings"].a) {
+      KnownFinding k;
+      k.prop = f["property"].str();
+      const J& m = f["match"];
+      if (!m["clause"].is_null()) k.clauses.insert(m["clause"].str());
+      for (auto& c : m["clauses"].a) k.clauses.insert(c.str());
+      if (!m["name_contains"].is_null() || !m["tags_any"].is_null()) continue;   // predicates of other engines
+      k.facts = m["facts"];
+      g_known.push_back(k);
+    }
+  }
   if (a.Has("replay")) {
     // replay=<file with {"scenario": {...}, "history": [...]}>
     ifstream rf(a.Get("replay"));
@@ -2654,7 +2883,8 @@ int main(int argc, char** argv) {
       for (auto& t : sc.tags) tg.push(t);
       o.set("tags", tg);
       o.set("history", HistToJson(sc, v.hist));
-      if (viol.a.size() < 200) viol.push(o);
+      if (v.known >= 0) { if (known_kept[v.known]++ < 5) viol.push(o); }
+      else if (unknown_kept++ < 400) viol.push(o);
     }
     for (auto& s : ex.samples) if (samples.a.size() < 6) samples.push(s);
     if (budget > 0 && Explorer::Now() > t0 + budget) { incomplete++; break; }
